@@ -58,11 +58,59 @@ def run(sh):
     for i in sh.share(nrand):
         rng = random.Random(core.stable_int(sh.seed, 'C01', i))
         decimal = i % 3 == 0
-        ops = engine_evq.random_ops(rng, decimal=decimal, aim_pauses=decimal)
+        bigint = i % 12 == 5
+        ops = engine_evq.random_ops(rng, decimal=decimal, aim_pauses=decimal or bigint, bigint=bigint)
+        if bigint:
+            sh.count('integer_clock_sequences')
         tie = ties.POLICIES[i % 4]
         one(sh, ops, tie, rng.randrange(1 << 30), 'decimal_sequences' if decimal else 'random_sequences',
             decimal)
+    for i in sh.share(160 if sh.tier == 'quick' else 8000):
+        system_clock_case(sh, i)
     line_leg(sh)
+
+
+def system_clock_case(sh, i):
+    """System.simulate() with an integer tick clock (also far above 2**53, where a float cannot hold the
+    times): every run ends with the clock at exactly t0 + d and has executed exactly the events due by then."""
+    from simprocesd.model import System
+    rng = random.Random(core.stable_int(sh.seed, 'C01sys', i))
+    base = rng.choice([0, 0, 2 ** 53, 1_700_000_000_000_000_000, 2 ** 60 + 1])
+    offs = sorted(rng.sample(range(1, 60), rng.randint(3, 10)))
+    durs = []
+    if base:
+        durs.append(base + rng.choice(offs))
+    while sum(durs) - base < 70:
+        durs.append(rng.choice([0, 1, 2, 3, 7, 12, 25]))
+    if i % 4 == 0 and base == 0:
+        durs = [float(d) for d in durs]      # float durations on a small int clock
+    case = {'engine': 'system_clock', 'base': base, 'offsets': offs, 'durations': durs}
+    ran = []
+    try:
+        system = System()
+        env = system.env
+        for k, o in enumerate(offs):
+            env.schedule_event(base + o, -2, (lambda o=o: ran.append((o, env.now))), rng.choice([2, 5, 7.5, 11]))
+        t = 0
+        for d in durs:
+            system.simulate(d, print_summary=False)
+            t = t + d
+            if env.now != t:
+                sh.violation('run_window', f'System.simulate({d!r}) on an integer clock: the clock reads {env.now!r}, '
+                             f'expected exactly {t!r}', case, engine='system_clock')
+                return
+            due = [o for o in offs if base + o <= t]
+            if [o for o, _ in ran] != due or any(now != base + o for o, now in ran):
+                sh.violation('run_window', f'after System.simulate up to {t!r}: events that ran (offset, clock) {ran}, '
+                             f'due by then {due} (base {base})', case, engine='system_clock')
+                return
+            sh.count('system_level_integer_clock_runs')
+    except Exception as e:
+        import traceback
+        sh.violation('order', f'library raised {type(e).__name__}: {e}', case,
+                     witness={'traceback': traceback.format_exc()[-1200:]}, engine='system_clock')
+        return
+    sh.case_done(case, base > 0)
 
 
 def line_leg(sh):
@@ -77,7 +125,9 @@ def line_leg(sh):
 
 def replay(sh, v):
     case = v['case']
-    if case.get('engine') == 'line':
+    if case.get('engine') == 'system_clock':
+        print('system-clock scenarios are replayed by seed: VERIF_SEED and the case index')
+    elif case.get('engine') == 'line':
         from .. import engine_line
         engine_line.replay_case(sh, 'C01', case, monitors=('queue',))
     else:
